@@ -152,10 +152,9 @@ fn compute_block_facts<'ast, 'arena>(
             for &local in &op.reads {
                 note_use(&mut uses, &defs, local, local_start);
             }
-            for &local in &op.writes {
-                note_def(&mut defs, local, local_start);
-            }
-
+            // The callees run while the statement's expression is evaluated, i.e. before the
+            // statement's own write: their capture reads are uses even of the variable the
+            // statement assigns (`x get f()` with `f` reading `x`).
             for &callee in &op.direct_callees {
                 let summary = &summaries[callee.0 as usize];
                 if !summary.available {
@@ -170,6 +169,10 @@ fn compute_block_facts<'ast, 'arena>(
                         note_use(&mut uses, &defs, local, local_start);
                     }
                 }
+            }
+
+            for &local in &op.writes {
+                note_def(&mut defs, local, local_start);
             }
         }
 
